@@ -9,32 +9,31 @@
   constructor, `add_edge` and `add_node` all insert missing endpoints (proved for the constructor: `Graph.mk_closed`,
   PMC/Properties/C13.lean).
 -/
-import PMC.Spec.Reach
+import PMC.Spec.GraphSpec
 import PMC.Proofs.SCCVisit
 namespace PMC.C12
 open PMC
 variable {σ : Type} [DecidableEq σ]
 
-/-- every successor of a node is a node -/
-def Closed (g : Graph σ) : Prop := ∀ x ∈ g.nodes, ∀ w ∈ g.next x, w ∈ g.nodes
+
 
 /-- each node occurs exactly once in the output: no node twice … -/
-theorem scc_partition (g : Graph σ) (h : Closed g) : (g.sccs).flatten.Nodup :=
+theorem scc_partition (g : Graph σ) (h : g.Closed) : (g.sccs).flatten.Nodup :=
   (SCC.sccs_correct g.nodes h).1
 
 /-- … and the components cover exactly the nodes of the graph -/
-theorem scc_nodes (g : Graph σ) (h : Closed g) (x : σ) : x ∈ (g.sccs).flatten ↔ x ∈ g.nodes :=
+theorem scc_nodes (g : Graph σ) (h : g.Closed) (x : σ) : x ∈ (g.sccs).flatten ↔ x ∈ g.nodes :=
   (SCC.sccs_correct g.nodes h).2.1 x
 
 /-- two nodes share a component exactly when they are mutually reachable -/
-theorem scc_exact (g : Graph σ) (h : Closed g) (C : List σ) (hC : C ∈ g.sccs) (x : σ) (hx : x ∈ C) (y : σ) :
+theorem scc_exact (g : Graph σ) (h : g.Closed) (C : List σ) (hC : C ∈ g.sccs) (x : σ) (hx : x ∈ C) (y : σ) :
     y ∈ C ↔ (Reach g.next x y ∧ Reach g.next y x) :=
   (SCC.sccs_correct g.nodes h).2.2 C hC x hx y
 
 /-- non-vacuity: a concrete graph with a 3-cycle, a tail and a self-loop meets the hypothesis, and the model
     computes its three components -/
-example : Closed ([(0,[1]), (1,[2,3]), (2,[0]), (3,[4]), (4,[4])] : Graph Nat) := by
-  unfold Closed; decide
+example : Graph.Closed ([(0,[1]), (1,[2,3]), (2,[0]), (3,[4]), (4,[4])] : Graph Nat) := by
+  unfold Graph.Closed; decide
 example : Graph.sccs ([(0,[1]), (1,[2,3]), (2,[0]), (3,[4]), (4,[4])] : Graph Nat) = [[4], [3], [0, 1, 2]] := by decide
 
 end PMC.C12
